@@ -18,6 +18,9 @@ def _set_fault(on):
     SB.runtime_error = _internal_fault if on else _REAL_RUNTIME_ERROR
 
 
+_MODULE_TABLE = sys.modules
+
+
 def _snapshot():
     return sys.stdout, time.sleep, set(sys.modules)
 
@@ -25,7 +28,7 @@ def _snapshot():
 def _restored(sb, snap):
     so, sl, mods = snap
     return (sys.stdout is so and time.sleep is sl and set(sys.modules) == mods
-            and sys.modules.get("colorsys") is _COLORSYS
+            and sys.modules is _MODULE_TABLE and sys.modules.get("colorsys") is _COLORSYS
             and sb._current_patches == [] and sb._current_stdout == [])
 
 
@@ -41,6 +44,7 @@ def _cleanup(sb, snap):
     del sb._current_stdout[:]
     sys.stdout = snap[0]
     time.sleep = snap[1]
+    sys.modules = _MODULE_TABLE
     sys.modules["colorsys"] = _COLORSYS
     sys.modules.pop("verif_fake_module", None)
 
@@ -51,7 +55,7 @@ def restore1(t0: bool, t1: bool, t2: bool, t3: bool, text: str, fault: bool, clo
     from the 13-entry menu (normal, Exception subclasses incl. broken __str__/__repr__, SystemExit, RecursionError,
     KeyboardInterrupt, GeneratorExit, a direct BaseException subclass); `fault` makes pedal's own feedback construction
     raise (for exception classes without a dedicated feedback class); `close` makes the program close the stream it
-    was given before it terminates; `nest` makes it trigger a nested evaluate() on the same sandbox; partition "entry,tamper": tamper 1/2/3 makes it delete / rebind / add an entry of sys.modules. Whether the call returns or raises, the borrowed
+    was given before it terminates; `nest` makes it trigger a nested evaluate() on the same sandbox; partition "entry,tamper": tamper 1/2/3 makes it delete / rebind / add an entry of sys.modules, 4 rebind sys.modules itself. Whether the call returns or raises, the borrowed
     process state is back and the sandbox's stacks are empty.
 
     pre: len(text) <= 1
